@@ -184,6 +184,40 @@ def checkCase (j : Json) : Except String Verdict := do
               v := v.cmp idx "redeem.body" (showBytes e, at', rt') (strD js "email", strD js "access_token", strD js "refresh_token") ["C08"]
               v := v.br "redeem/tokens"
             | .error code => v := v.cmp idx "redeem.status" code status ["C08"]; v := v.br "redeem/error"
+          else if rt.handler == "Refresh" && !rawIdp then
+            let (o, calls) := refreshH (first (formVals "refresh_token")) (refreshOf slug (getJ inp "idpToken"))
+            let js := getJ out "json"
+            match o with
+            | .refreshed tok ttl =>
+              v := v.cmp idx "refresh.out" ((201 : Int), tok, ttl) (status, strD js "access_token", intD js "expires_in") ["C08"]
+              v := v.br "refresh/refreshed"
+            | .status n => v := v.cmp idx "refresh.status" (n : Int) status ["C08"]; v := v.br s!"refresh/{n}"
+            | .profile _ _ => pure ()
+            v := v.cmp idx "refresh.idpCalls" calls idpKinds ["C08"]
+          else if rt.handler == "GetProfile" && slug == "okta" && !rawIdp then
+            let email := first (vals q "email")
+            let gparam := first (vals q "groups")
+            let allowed := if gparam == "" then [] else gparam.splitOn ","
+            let ui := getJ inp "idpUserinfo"
+            let userinfo : Except PErr (List String) := match strD ui "kind" with
+              | "ok" => .ok (strs ui "groups")
+              | _ => .error (perrOf slug ui)
+            let (mem, calls) := oktaMembership allowed (strD hdrs "X-Access-Token") userinfo
+            let (o, _) := profileH email mem
+            let js := getJ out "json"
+            match o with
+            | .profile e gs =>
+              v := v.cmp idx "profile.out" ((200 : Int), e, gs) (status, strD js "email", strs js "groups") ["C08"]
+              v := v.br "profile/ok"
+            | .status n => v := v.cmp idx "profile.status" (n : Int) status ["C08"]; v := v.br s!"profile/{n}"
+            | .refreshed _ _ => pure ()
+            if email != "" then v := v.cmp idx "profile.idpCalls" calls idpKinds ["C08"]
+          else if rt.handler == "ValidateToken" && !rawIdp then
+            let (o, calls) := validateH (strD hdrs "X-Access-Token") (validateOf slug (getJ inp "idpValidate"))
+            match o with
+            | .status n => v := v.cmp idx "validate.status" (n : Int) status ["C08"]; v := v.br s!"validate/{n}"
+            | _ => pure ()
+            v := v.cmp idx "validate.idpCalls" calls idpKinds ["C08"]
           else if rt.handler == "OAuthCallback" && !rawIdp then
             let tk := getJ inp "idpToken"
             let tresp : TokenResp := match strD tk "kind" with
